@@ -767,3 +767,104 @@ def blocks_calling(body, prog, pred, transitive_bound=0):
 def return_defs(body, flow):
     """Definitions of the return place _0: list of (bb, kind, payload)."""
     return flow.defs.get(0, [])
+
+
+def place_chain(flow, op, max_depth=12):
+    """Field names (and the root local) met while following an operand back through refs, derefs,
+    copies and transparent calls: `&(*self).creator` -> (['creator'], root_local).
+    Returns (fields_in_order_outer_to_inner, set_of_root_locals)."""
+    fields = []
+    roots = set()
+
+    def walk(local, proj, depth):
+        for p in proj:
+            if p.startswith(".") or p.startswith("@"):
+                fields.append(p[1:] if p.startswith(".") else p)
+        if depth > max_depth:
+            roots.add(local)
+            return
+        ds = flow.defs.get(local, [])
+        if not ds:
+            roots.add(local)
+            return
+        progressed = False
+        for bi, si, lproj, payload in ds:
+            if lproj:
+                continue
+            if si == "call":
+                key = callee_key(payload["f"])
+                if is_transparent(key) or is_transparent(declared_key(payload["f"])):
+                    a = payload["args"][0] if payload["args"] else None
+                    pl = op_place(a) if a else None
+                    if pl:
+                        progressed = True
+                        walk(pl[0], pl[1], depth + 1)
+                continue
+            rv = payload
+            if rv["k"] in ("ref", "rawptr"):
+                progressed = True
+                walk(rv["p"][0], rv["p"][1], depth + 1)
+            elif rv["k"] in ("use", "cast"):
+                pl = op_place(rv["a"])
+                if pl:
+                    progressed = True
+                    walk(pl[0], pl[1], depth + 1)
+        if not progressed:
+            roots.add(local)
+
+    pl = op_place(op)
+    if pl:
+        walk(pl[0], pl[1], 0)
+    return fields, roots
+
+
+def switch_bool_labels(body, flow, cfg, sb):
+    """For a switch on a bool (possibly negated): {edge label: truth value of the un-negated source}."""
+    t = body.blocks[sb]["t"]
+    if t["k"] != "switch" or t["dty"] != "bool":
+        return {}
+    info = switch_predicate(body, flow, sb)
+    out = {}
+    listed = {v for v, _ in t["arms"]}
+    for lab, _tgt in cfg.succ[sb]:
+        if lab == 0:
+            val = False
+        elif lab == 1:
+            val = True
+        elif lab == "else":
+            if listed == {0}:
+                val = True
+            elif listed == {1}:
+                val = False
+            else:
+                continue
+        else:
+            continue
+        if info["flips"]:
+            val = not val
+        out[lab] = val
+    return out
+
+
+def switch_source_call(body, flow, sb):
+    """(callee key, call block, terminator) of the call whose result the switch tests directly."""
+    op = body.blocks[sb]["t"]["d"]
+    for _ in range(20):
+        pl = op_place(op)
+        if pl is None:
+            return None
+        ds = flow.defs.get(pl[0], [])
+        if len(ds) != 1:
+            return None
+        bi, si, _p, payload = ds[0]
+        if si == "call":
+            return callee_key(payload["f"]), bi, payload
+        rv = payload
+        if rv["k"] == "un" and rv["op"] == "Not":
+            op = rv["a"]
+            continue
+        if rv["k"] == "use":
+            op = rv["a"]
+            continue
+        return None
+    return None
